@@ -162,10 +162,20 @@ func (m *UnboundedFairMailbox) Enqueue(msg *ReceiveContext) error {
 		}
 	}
 
-	_ = sq.mailbox.Enqueue(msg)
+	// Count the message before it becomes visible in the sub-queue: length first,
+	// then pending. A consumer can then never take a message that is not counted
+	// yet, so pending and length never go negative and a counted message of this
+	// sender always implies m.length > 0. Counting after the publication let a
+	// late activation (pending observed at 1, CAS performed after the sender was
+	// served and deactivated again) hand the consumer an uncounted message:
+	// pending went to -1, was reset to 0 and then stayed one too high for ever, so
+	// the next Enqueue saw pending == 2, did not activate the sender and the
+	// message was never delivered.
 	atomic.AddInt64(&m.length, 1)
+	pending := atomic.AddInt64(&sq.pending, 1)
+	_ = sq.mailbox.Enqueue(msg)
 
-	if pending := atomic.AddInt64(&sq.pending, 1); pending == 1 {
+	if pending == 1 {
 		// transition from empty -> non-empty, try to activate sender
 		if sq.active.CompareAndSwap(false, true) {
 			m.active.enqueue(sq)
